@@ -1081,6 +1081,15 @@ func parsePath(target string, p string) *gnmi.Path {
 	return path
 }
 
+func tnumOf(ts []string, t string) int {
+	for i, x := range ts {
+		if x == t {
+			return i
+		}
+	}
+	return 0
+}
+
 type op struct {
 	target string
 	path   string
@@ -1815,6 +1824,50 @@ func runScenario(seed int64, n int, out *bufio.Writer, kind string, suffix strin
 			h.nbSet([]op{{target: ta, path: env.Pick(r, paths), val: fmt.Sprintf("v%d", r.Intn(1000))}, {target: tb, path: env.Pick(r, paths), val: fmt.Sprintf("v%d", r.Intn(1000))}}, false, r.Intn(2) == 0)
 		}
 		nev = r.Intn(3)
+	}
+	if n%16 == 6 {
+		// scripted: a change, then one or two requests about the same target that are refused and alter nothing (a change
+		// the model plugin rejects, a rollback of an index that does not exist), then the rollback of the first change.
+		// The refused requests are links of the target's proposal chain, yet the change before them is still the most
+		// recent change of the target: its rollback restores what was there before it.
+		for _, t := range h.targets {
+			if len(h.connsOf(t)) == 0 && r.Intn(3) != 0 {
+				h.connUp(t)
+			}
+		}
+		t := env.Pick(r, h.targets)
+		if r.Intn(2) == 0 {
+			h.nbSet([]op{{target: t, path: env.Pick(r, paths), val: fmt.Sprintf("v%d", r.Intn(1000))}}, r.Intn(2) == 0, false)
+		}
+		first := []op{{target: t, path: env.Pick(r, paths), val: fmt.Sprintf("v%d", r.Intn(1000))}}
+		if r.Intn(2) == 0 {
+			first = append(first, op{target: t, path: env.Pick(r, delPaths), del: true})
+			if strings.HasPrefix(first[0].path, first[1].path) || strings.HasPrefix(first[1].path, first[0].path) {
+				first = first[:1]
+			}
+		}
+		if len(h.targets) >= 2 && r.Intn(3) == 0 {
+			first = append(first, op{target: h.targets[(tnumOf(h.targets, t)+1)%len(h.targets)], path: env.Pick(r, paths), val: fmt.Sprintf("v%d", r.Intn(1000))})
+		}
+		h.nbSet(first, r.Intn(2) == 0, false)
+		idx := uint64(h.e.NumTx())
+		if r.Intn(3) != 0 {
+			h.randomSteps(20+h.r.Intn(30), crashProb)
+			h.settle(40, crashProb)
+		}
+		for k := 1 + r.Intn(2); k > 0; k-- {
+			if r.Intn(3) != 0 {
+				h.nbSet([]op{{target: t, path: env.Pick(r, paths), val: fmt.Sprintf("BADv%d", r.Intn(1000))}}, r.Intn(2) == 0, false)
+			} else {
+				h.nbRollback(uint64(h.e.NumTx()) + 3)
+			}
+			if r.Intn(2) == 0 {
+				h.randomSteps(20+h.r.Intn(30), crashProb)
+				h.settle(40, crashProb)
+			}
+		}
+		h.nbRollback(idx)
+		nev = r.Intn(2)
 	}
 	if (n%16 == 13 || (kind == "atomic" && n%16 == 1) || (kind != "atomic" && n%16 == 5)) && len(h.targets) >= 2 {
 		// scripted (atomic and crash histories alike: exactly one change is pending when the refusal is due, so the twin
